@@ -118,7 +118,7 @@ def _extract_cases(c):
 
 
 contract('ace_time::LocalDate::extractYearMonthDay(int, short&, unsigned char&, unsigned char&)', props=['C06'],
-         requires=_extract_pre, ensures=_extract_post, cases=_extract_cases,
+         lang_requires=_extract_pre, ensures=_extract_post, cases=_extract_cases,
          assigns=lambda c: [(c.args[1], 2), (c.args[2], 1), (c.args[3], 1)])
 
 
